@@ -91,6 +91,11 @@ def gen_history(rng):
     probe['abort'] = None
     hist = []
     for _ in range(rng.choice([1, 1, 2, 3, 4, 6])):
+        if rng.random() < 0.15:
+            # the very call that is probed later: the harness passes the SAME argument objects again, as a user who
+            # repeats a call does (repeatability with shared lists / dicts)
+            hist.append(copy.deepcopy(probe))
+            continue
         if rng.random() < 0.75:
             c = gen_call(rng, probe, rng.choice(AXES))
         else:
@@ -211,6 +216,8 @@ class C11(core.Check):
         for i, o in enumerate(with_h):
             if not o['args_unmodified']:
                 return ('arguments-modified', {'call_index': i})
+            if o.get('earlier_args_modified') is not None:
+                return ('arguments-modified/by-a-later-call', {'call_index': i, 'arguments_of_call': o['earlier_args_modified']})
         a, b = with_h[-1], fresh
         if not fresh['args_unmodified']:
             return ('arguments-modified', {'call_index': 0, 'fresh': True})
